@@ -4,7 +4,7 @@
 #
 # Two builds of the same harness + library: the primary one (optimised, debug assertions and overflow checks ON -- what
 # `cargo test` exercises) and "nodebug" (both OFF -- what `cargo build --release` gives users of the library). Every check
-# runs on the primary build; the checks listed in SECOND_PASS (all checks in the thorough tier) run a second time on the
+# runs on the primary build; the checks listed in SECOND_PASS (SECOND_PASS_THOROUGH in the thorough tier) run a second time on the
 # nodebug build. Exit code: 1 if either pass reports a violation, else 2 if either had a machinery error, else 0.
 set -u
 export CARGO_NET_OFFLINE=true
